@@ -1,9 +1,9 @@
 (* C27 — the duration a segment records at close (b5-c27): for ALL configurations and ALL sample sequences, with any
    number of tracks interleaved in any order, the duration given to writeDuration / onSegmentComplete is
    (the end of the sample that ends last) - (segment start): the maximum over every sample written to the file, not
-   the end of the sample written last. Exact for every segment closed by a switch and for the segment closed by
-   formatFMP4.close unless a formatFMP4Segment.write failed (the rejected sample has then been counted: never too
-   short). *)
+   the end of the sample written last - for every file, also the one closed after a failed write (repaired code, fix
+   b7e594b: a sample refused by formatFMP4Part.write does not raise endDTS; the pinned code counted it:
+   example_after_error_pinned). *)
 From Coq Require Import List ZArith Bool Lia.
 Require Import MTX.Lib.IntWrap MTX.Model.C24_MulDiv MTX.Model.C27_Segmenter MTX.Proofs.C27_Segmenter.
 Import ListNotations.
@@ -39,73 +39,57 @@ Lemma media_end_ge s l : s <= media_end s l.
 Proof. apply fold_max_ge_init. Qed.
 
 (* ------------------------------------------------------------------------------------------------------------ *)
-(* the duration check on a log: every SClose carries a duration in relation `exact` (true: equal, false: not below)
-   with (running maximum - start) of the open file *)
+(* the duration check on a log: every SClose carries (running maximum - start) of the open file *)
 
-Definition drel (exact : bool) (d t : Z) : Prop := if exact then d = t else t <= d.
-Fixpoint dlog (exact : bool) (cur : option (Z * Z)) (l : list sop) : Prop :=
+Fixpoint dlog (cur : option (Z * Z)) (l : list sop) : Prop :=
   match l with
   | [] => True
   | o :: r =>
       match o with
-      | SClose _ d => match cur with Some (s, e) => drel exact d (e - s) | None => False end
+      | SClose _ d => match cur with Some (s, e) => d = e - s | None => False end
       | _ => True
-      end /\ dlog exact (dstep cur o) r
+      end /\ dlog (dstep cur o) r
   end.
 
-Lemma drel_weaken exact d t : drel true d t -> drel exact d t.
-Proof. destruct exact; cbn; [auto|lia]. Qed.
 Lemma dstate_app cur l1 l2 : dstate cur (l1 ++ l2) = dstate (dstate cur l1) l2.
 Proof. unfold dstate. apply fold_left_app. Qed.
-Lemma dlog_app exact : forall l1 cur l2,
-  dlog exact cur (l1 ++ l2) <-> dlog exact cur l1 /\ dlog exact (dstate cur l1) l2.
+Lemma dlog_app : forall l1 cur l2,
+  dlog cur (l1 ++ l2) <-> dlog cur l1 /\ dlog (dstate cur l1) l2.
 Proof.
   induction l1 as [|o r IH]; intros cur l2; cbn [app dlog dstate fold_left]; [tauto|].
   fold (dstate (dstep cur o) r). rewrite IH. tauto.
 Qed.
-Lemma dlog_weaken exact : forall l cur, dlog true cur l -> dlog exact cur l.
-Proof.
-  induction l as [|o r IH]; intros cur; cbn [dlog]; [auto|]. intros [H1 H2]. split; [|apply IH; exact H2].
-  destruct o; auto. destruct cur as [[s e]|]; [apply drel_weaken; exact H1|exact H1].
-Qed.
-Lemma dlog_scan : forall l cur, dlog true cur l -> dur_scan cur l = true.
+Lemma dlog_scan : forall l cur, dlog cur l -> dur_scan cur l = true.
 Proof.
   induction l as [|o r IH]; intros cur; cbn [dlog dur_scan]; [auto|]. intros [H1 H2].
   rewrite (IH _ H2), andb_true_r. destruct o; auto. destruct cur as [[s e]|]; [|destruct H1].
-  cbn in H1. apply Z.eqb_eq. exact H1.
+  apply Z.eqb_eq. exact H1.
 Qed.
 
 (* the open segment against the state of the scan *)
-Definition seg_rel (exact : bool) (sg : option sst) (cs : option (Z * Z)) : Prop :=
+Definition seg_rel (sg : option sst) (cs : option (Z * Z)) : Prop :=
   match sg with
   | None => True
   | Some g =>
-      if g.(g_created) then exists e, cs = Some (g.(g_start), e) /\ drel exact g.(g_end) (media_end e (cur_smps sg))
-      else drel exact g.(g_end) (media_end g.(g_start) (cur_smps sg))
+      if g.(g_created) then exists e, cs = Some (g.(g_start), e) /\ g.(g_end) = media_end e (cur_smps sg)
+      else g.(g_end) = media_end g.(g_start) (cur_smps sg)
   end.
-Definition InvD (exact : bool) (v : sview) : Prop :=
-  match v with (sg, _, lg, _) => dlog true None lg /\ seg_rel exact sg (dstate None lg) end.
+Definition InvD (v : sview) : Prop :=
+  match v with (sg, _, lg, _) => dlog None lg /\ seg_rel sg (dstate None lg) end.
 
-Lemma seg_rel_weaken sg cs : seg_rel true sg cs -> seg_rel false sg cs.
-Proof.
-  unfold seg_rel. destruct sg as [g|]; [|auto]. destruct (g_created g).
-  - intros (e & H1 & H2). exists e. split; [exact H1|]. cbn in *. lia.
-  - cbn. lia.
-Qed.
-
-Lemma seg_rel_ensure sg ns g0 ns0 cs : ensure sg ns g0 ns0 -> seg_rel true sg cs -> seg_rel true (Some g0) cs.
+Lemma seg_rel_ensure sg ns g0 ns0 cs : ensure sg ns g0 ns0 -> seg_rel sg cs -> seg_rel (Some g0) cs.
 Proof. intros [g n|n d m] H; [exact H|]. cbn. reflexivity. Qed.
 
 (* the state of the scan after closeCurPart: the file is open with the segment's samples so far *)
-Lemma dstate_close_part g lg p : g_cur g = Some p -> seg_rel true (Some g) (dstate None lg) ->
+Lemma dstate_close_part g lg p : g_cur g = Some p -> seg_rel (Some g) (dstate None lg) ->
   dstate None (lg ++ close_part_ops g) = Some (g_start g, g_end g).
 Proof.
   intros Hc Hr. rewrite dstate_app. unfold close_part_ops, create_ops. rewrite Hc.
   unfold seg_rel, cur_smps in Hr. rewrite Hc in Hr. destruct (g_created g).
-  - destruct Hr as (e & -> & He). cbn in He. cbn. now rewrite He.
-  - cbn in Hr. cbn. now rewrite Hr.
+  - destruct Hr as (e & -> & He). cbn. now rewrite He.
+  - cbn. now rewrite Hr.
 Qed.
-Lemma dlog_no_close exact cur l : (forall k d, ~ In (SClose k d) l) -> dlog exact cur l.
+Lemma dlog_no_close cur l : (forall k d, ~ In (SClose k d) l) -> dlog cur l.
 Proof.
   revert cur. induction l as [|o r IH]; intros cur H; cbn [dlog]; [auto|]. split.
   - destruct o; auto. exfalso. apply (H num dur). now left.
@@ -117,11 +101,11 @@ Proof.
   destruct (g_created g); cbn; intros H; repeat (destruct H as [H|H]; try discriminate); auto.
 Qed.
 
-(* formatFMP4Segment.write keeps the relation: exactly when the sample is accepted, from above when it is rejected
-   (endDTS has been raised before formatFMP4Part.write refused the sample) *)
-Lemma dur_seg_write c rate g w lg g1 lg1 ok : dlog true None lg -> seg_rel true (Some g) (dstate None lg) ->
+(* formatFMP4Segment.write keeps the relation whether the sample is accepted or refused (repaired code: a refused
+   sample does not raise endDTS) *)
+Lemma dur_seg_write c rate g w lg g1 lg1 ok : dlog None lg -> seg_rel (Some g) (dstate None lg) ->
   seg_write c rate g w lg = (g1, lg1, ok) ->
-  dlog true None lg1 /\ seg_rel ok (Some g1) (dstate None lg1).
+  dlog None lg1 /\ seg_rel (Some g1) (dstate None lg1).
 Proof.
   intros Hl Hr Hw. destruct (seg_write_spec c rate g w lg) as (g' & Hs & _ & Hst & _ & Hcr & Hend & Hcur).
   rewrite Hs in Hw. injection Hw as <- <- <-. split.
@@ -133,103 +117,67 @@ Proof.
       * rewrite orb_true_r. rewrite (dstate_close_part g lg p Hc Hr). exists (g_end g). split; [reflexivity|].
         destruct (part_write c (g_start g) rate (new_part (g_nextpart g) (w_dts w)) w) as [p'|] eqn:Hp.
         -- apply part_write_smps in Hp. destruct Hp as (-> & _). cbn. reflexivity.
-        -- cbn. lia.
+        -- cbn. reflexivity.
       * rewrite orb_false_r, app_nil_r. unfold seg_rel, cur_smps in Hr. rewrite Hc in Hr.
         destruct (part_write c (g_start g) rate p w) as [p'|] eqn:Hp.
         -- apply part_write_smps in Hp. destruct Hp as (-> & _). destruct (g_created g).
-           ++ destruct Hr as (e & He1 & He2). exists e. split; [exact He1|]. cbn in *. rewrite media_end_snoc. lia.
-           ++ cbn in *. rewrite media_end_snoc. lia.
+           ++ destruct Hr as (e & He1 & He2). exists e. split; [exact He1|]. rewrite media_end_snoc. lia.
+           ++ rewrite media_end_snoc. lia.
         -- destruct (g_created g).
-           ++ destruct Hr as (e & He1 & He2). exists e. split; [exact He1|]. cbn in *. lia.
-           ++ cbn in *. lia.
+           ++ destruct Hr as (e & He1 & He2). exists e. split; [exact He1|exact He2].
+           ++ exact Hr.
     + rewrite orb_false_r, app_nil_r. unfold seg_rel, cur_smps in Hr. rewrite Hc in Hr.
       destruct (part_write c (g_start g) rate (new_part (g_nextpart g) (w_dts w)) w) as [p'|] eqn:Hp.
       * apply part_write_smps in Hp. destruct Hp as (-> & _). cbn [new_part p_smps app]. destruct (g_created g).
         -- destruct Hr as (e & He1 & He2). exists e. split; [exact He1|]. cbn in *. lia.
         -- cbn in *. lia.
       * cbn [new_part p_smps]. destruct (g_created g).
-        -- destruct Hr as (e & He1 & He2). exists e. split; [exact He1|]. cbn in *. lia.
-        -- cbn in *. lia.
+        -- destruct Hr as (e & He1 & He2). exists e. split; [exact He1|exact He2].
+        -- exact Hr.
 Qed.
 
-(* formatFMP4Segment.close: the SClose entry carries the relation of the open segment *)
-Lemma dur_seg_close exact g lg : dlog true None lg -> seg_rel exact (Some g) (dstate None lg) ->
-  dlog exact None (lg ++ seg_close_ops g).
+(* formatFMP4Segment.close: the SClose entry carries the true duration of the open segment *)
+Lemma dur_seg_close g lg : dlog None lg -> seg_rel (Some g) (dstate None lg) ->
+  dlog None (lg ++ seg_close_ops g).
 Proof.
-  intros Hl Hr. apply dlog_app. split; [apply dlog_weaken; exact Hl|].
+  intros Hl Hr. apply dlog_app. split; [exact Hl|].
   unfold seg_close_ops. apply dlog_app. split; [apply dlog_no_close, close_part_no_close|].
   rewrite <- dstate_app. unfold close_part_seg, close_part_ops, create_ops. unfold seg_rel, cur_smps in Hr.
   destruct (g_cur g) as [p|] eqn:Hc.
   - cbn [set_created g_created dlog]. split; [|exact I]. rewrite dstate_app.
     destruct (g_created g).
-    + destruct Hr as (e & -> & He). cbn. unfold media_end in *; destruct exact; cbn in *; lia.
-    + cbn. unfold media_end in *; destruct exact; cbn in *; lia.
+    + destruct Hr as (e & -> & He). cbn. unfold media_end in *. lia.
+    + cbn. unfold media_end in *. lia.
   - rewrite app_nil_r. destruct (g_created g); [|exact I]. cbn [dlog]. split; [|exact I].
-    destruct Hr as (e & -> & He). unfold media_end in *; destruct exact; cbn in *; lia.
+    destruct Hr as (e & -> & He). unfold media_end in *. cbn in *. lia.
 Qed.
 
-Lemma InvD_run c evs x : InvD true (view x) -> InvD false (view (run_from c x evs)).
+(* the invariant holds before and after a failed write alike *)
+Lemma InvD_run c evs x : InvD (view x) -> InvD (view (run_from c x evs)).
 Proof.
-  apply (run_from_inv c (InvD true) (InvD false)).
-  - intros [[[sg ns] lg] ac] [H1 H2]. split; [exact H1|apply seg_rel_weaken; exact H2].
+  apply (run_from_inv c InvD InvD).
+  - auto.
   - intros sg ns lg ac g0 ns0 [H1 H2] He. split; [exact H1|eapply seg_rel_ensure; eauto].
   - intros sg ns lg ac g0 ns0 rate w g1 lg1 [H1 H2] He Hw.
     exact (dur_seg_write _ _ _ _ _ _ _ _ H1 (seg_rel_ensure _ _ _ _ _ He H2) Hw).
   - intros sg ns lg ac g0 ns0 rate w g1 lg1 [H1 H2] He Hw.
     destruct (dur_seg_write _ _ _ _ _ _ _ _ H1 (seg_rel_ensure _ _ _ _ _ He H2) Hw) as [H3 H4].
     split; [split; assumption|]. intros d n. split; [|cbn; reflexivity].
-    rewrite seg_close_spec. apply (dur_seg_close true); assumption.
+    rewrite seg_close_spec. apply dur_seg_close; assumption.
 Qed.
 
-(* no write failed (no outcome 2): the exact relation survives to the end *)
-Lemma outs_add_out x o : x_outs (add_out x o) = x_outs x ++ [o].
-Proof. reflexivity. Qed.
-Lemma InvD_run_strong c : forall evs x, InvD true (view x) ->
-  (forall o, In o (x_outs (run_from c x evs)) -> o <> o_err) -> InvD true (view (run_from c x evs)).
-Proof.
-  induction evs as [|[t s] r IH]; intros x HP Ho; cbn [run_from] in *; [exact HP|].
-  destruct (track_write c t s x) as [x' o] eqn:Ht.
-  destruct (o =? o_err) eqn:Eo.
-  - exfalso. apply Z.eqb_eq in Eo. apply (Ho o); [|exact Eo]. rewrite outs_add_out. apply in_or_app. right. now left.
-  - apply IH; [|exact Ho]. rewrite view_add_out.
-    destruct (track_write_cases _ _ _ _ _ _ Ht) as
-      [(sg & ns & lg & ac & g0 & ns0 & rate & w & g1 & lg1 & Hv & He & Hw & Hv' & ->)
-      |[Hv'|[(sg & ns & lg & ac & g0 & ns0 & Hv & He & Hv')
-      |(sg & ns & lg & ac & g0 & ns0 & rate & w & g1 & lg1 & Hv & He & Hw & Hv')]]].
-    + discriminate.
-    + now rewrite Hv'.
-    + rewrite Hv'. rewrite Hv in HP. destruct HP as [H1 H2]. split; [exact H1|eapply seg_rel_ensure; eauto].
-    + rewrite Hv in HP. destruct HP as [H1 H2].
-      destruct (dur_seg_write _ _ _ _ _ _ _ _ H1 (seg_rel_ensure _ _ _ _ _ He H2) Hw) as [H3 H4].
-      destruct Hv' as [->|(d & n & ->)]; [split; assumption|]. split; [|cbn; reflexivity].
-      rewrite seg_close_spec. apply (dur_seg_close true); assumption.
-Qed.
-
-Lemma InvD_init c : InvD true (view (init_st c)).
+Lemma InvD_init c : InvD (view (init_st c)).
 Proof. cbn. auto. Qed.
 
-(* the logs: before formatFMP4.close every recorded duration is exact; after it none is too short; all exact when no
-   write failed *)
-Lemma dur_log_before_close c evs : dlog true None (x_log (run_from c (init_st c) evs)).
+(* the logs, before and after formatFMP4.close: every recorded duration is the true one *)
+Lemma dur_log_before_close c evs : dlog None (x_log (run_from c (init_st c) evs)).
 Proof.
   pose proof (InvD_run c evs (init_st c) (InvD_init c)) as H. unfold view, InvD in H. tauto.
 Qed.
-Lemma finish_outs x : x_outs (finish x) = x_outs x.
-Proof. unfold finish. destruct (x_seg x); reflexivity. Qed.
-Lemma dur_log_raw c evs : dlog false None (x_log (run_raw c evs)).
+Lemma dur_log_raw c evs : dlog None (x_log (run_raw c evs)).
 Proof.
   unfold run_raw. set (x := run_from c (init_st c) evs).
   pose proof (InvD_run c evs (init_st c) (InvD_init c)) as H. fold x in H.
-  pose proof (finish_view x) as Hv. unfold view in Hv at 1. unfold view, InvD in H. destruct H as [H1 H2].
-  destruct (x_seg x) as [g|].
-  - injection Hv as _ _ Hl _. rewrite Hl. apply dur_seg_close; assumption.
-  - injection Hv as _ _ Hl _. rewrite Hl. apply dlog_weaken. exact H1.
-Qed.
-Lemma dur_log_raw_exact c evs : (forall o, In o (x_outs (run_raw c evs)) -> o <> o_err) ->
-  dlog true None (x_log (run_raw c evs)).
-Proof.
-  unfold run_raw. set (x := run_from c (init_st c) evs). rewrite finish_outs. intros Ho.
-  pose proof (InvD_run_strong c evs (init_st c) (InvD_init c) Ho) as H. fold x in H.
   pose proof (finish_view x) as Hv. unfold view in Hv at 1. unfold view, InvD in H. destruct H as [H1 H2].
   destruct (x_seg x) as [g|].
   - injection Hv as _ _ Hl _. rewrite Hl. apply dur_seg_close; assumption.
@@ -242,11 +190,11 @@ Qed.
 Lemma file_samples_add f p : file_samples (add_part f p) = file_samples f ++ o_smps p.
 Proof. unfold file_samples, add_part. cbn [f_parts]. rewrite flat_map_app. cbn. now rewrite app_nil_r. Qed.
 
-Lemma files_from_dur exact : forall l done cur o n s' cs, log_run (o, n) l = Some s' -> cur_ok cur o ->
-  dlog exact cs l ->
+Lemma files_from_dur : forall l done cur o n s' cs, log_run (o, n) l = Some s' -> cur_ok cur o ->
+  dlog cs l ->
   (forall f, cur = Some f -> cs = Some (f_sdts f, media_end (f_sdts f) (file_samples f))) ->
-  (forall f d, In f done -> f_closed f = Some d -> drel exact d (true_duration f)) ->
-  forall f d, In f (files_from done cur l) -> f_closed f = Some d -> drel exact d (true_duration f).
+  (forall f d, In f done -> f_closed f = Some d -> d = true_duration f) ->
+  forall f d, In f (files_from done cur l) -> f_closed f = Some d -> d = true_duration f.
 Proof.
   induction l as [|op r IH]; intros done cur o n s' cs Hr Hc Hs Hcur Hd f d Hin Hcl.
   - cbn in Hin. apply in_rev in Hin. destruct cur as [g|]; [|eauto]. destruct Hin as [<-|Hin]; [|eauto].
@@ -270,16 +218,16 @@ Proof.
       cbn in Hcl'. injection Hcl' as <-. exact Hs1.
 Qed.
 
-Lemma files_dur exact l s' : log_run (None, 0) l = Some s' -> dlog exact None l ->
-  forall f d, In f (files_of l) -> f_closed f = Some d -> drel exact d (true_duration f).
+Lemma files_dur l s' : log_run (None, 0) l = Some s' -> dlog None l ->
+  forall f d, In f (files_of l) -> f_closed f = Some d -> d = true_duration f.
 Proof.
   intros Hr Hs f d Hin Hcl. unfold files_of in Hin.
-  refine (files_from_dur exact _ _ None _ _ _ _ Hr I Hs _ _ f d Hin Hcl); [intros f0 [=]|intros f0 d0 []].
+  refine (files_from_dur _ _ None _ _ _ _ Hr I Hs _ _ f d Hin Hcl); [intros f0 [=]|intros f0 d0 []].
 Qed.
 
 (* ---- statements for Props ---- *)
 
-(* segments closed by a switch (everything in the log before formatFMP4.close): exact *)
+(* the log at any time before formatFMP4.close (segments closed by a switch) *)
 Lemma closed_by_switch_exact c evs :
   let x := run_from c (init_st c) (gate c evs) in
   dur_scan None (x_log x) = true /\
@@ -288,29 +236,20 @@ Proof.
   intros x. pose proof (dur_log_before_close c (gate c evs)) as Hd. fold x in Hd.
   split; [apply dlog_scan; exact Hd|].
   assert (HA : InvA (view x)) by (apply InvA_run; cbn; auto). destruct HA as [HA _].
-  intros f d Hin Hcl. exact (files_dur true _ _ HA Hd f d Hin Hcl).
+  intros f d Hin Hcl. exact (files_dur _ _ HA Hd f d Hin Hcl).
 Qed.
 
-(* every file of every run: closed, and the recorded duration is never below the true one *)
-Lemma closed_never_short c evs f : In f (files_of (x_log (run c evs))) ->
-  exists d, f_closed f = Some d /\ true_duration f <= d.
+(* every file of every run - whether or not a write failed - is closed and records exactly its true duration *)
+Lemma closed_exact c evs f : In f (files_of (x_log (run c evs))) -> f_closed f = Some (true_duration f).
 Proof.
   intros Hin. destruct (log_ok_raw c (gate c evs)) as [H1 H2]. fold (run c evs) in H1, H2.
   destruct (files_of_ok _ H1) as (_ & _ & H3). specialize (H3 H2 f Hin).
-  destruct (f_closed f) as [d|] eqn:Hcl; [|now destruct H3]. exists d. split; [reflexivity|].
+  destruct (f_closed f) as [d|] eqn:Hcl; [|now destruct H3]. f_equal.
   apply log_ok_run in H1. destruct H1 as [s' Hr].
-  exact (files_dur false _ _ Hr (dur_log_raw c (gate c evs)) f d Hin Hcl).
+  exact (files_dur _ _ Hr (dur_log_raw c (gate c evs)) f d Hin Hcl).
 Qed.
-
-(* no write failed: every file records exactly its true duration *)
-Lemma closed_exact c evs : (forall o, In o (x_outs (run c evs)) -> o <> o_err) ->
-  forall f, In f (files_of (x_log (run c evs))) -> f_closed f = Some (true_duration f).
-Proof.
-  intros Ho f Hin. destruct (closed_never_short c evs f Hin) as (d & Hcl & _). rewrite Hcl. f_equal.
-  destruct (log_ok_raw c (gate c evs)) as [H1 _]. fold (run c evs) in H1.
-  apply log_ok_run in H1. destruct H1 as [s' Hr].
-  exact (files_dur true _ _ Hr (dur_log_raw_exact c (gate c evs) Ho) f d Hin Hcl).
-Qed.
+Lemma closed_scan c evs : dur_scan None (x_log (run c evs)) = true.
+Proof. apply dlog_scan. exact (dur_log_raw c (gate c evs)). Qed.
 
 (* ------------------------------------------------------------------------------------------------------------ *)
 (* track by track: when the sample ends of every track do not decrease, the media end is the maximum over the tracks
@@ -383,8 +322,9 @@ Proof.
   - vm_compute. reflexivity.
 Qed.
 
-(* after a failed write (maximum part size) the rejected sample has been counted: the file closed by
-   formatFMP4.close records more than it holds *)
+(* the PINNED code (before fix b7e594b): after a failed write (maximum part size) the refused sample had been
+   counted, and the file closed by formatFMP4.close recorded more than it holds: max part size 100, samples of 50 and
+   80 bytes at 25 fps - the first sample (40 ms) is in the file, the second is refused, 80 ms are recorded *)
 Definition exe_cfg : cfg :=
   {| c_tracks := [ {| tc_rate := 90000; tc_video := true |} ];
      c_part_dur := 100000000; c_seg_dur := 3600000000000; c_max_part := 100 |}.
@@ -392,8 +332,8 @@ Definition exe_evs : list event :=
   [ (0%nat, {| s_dts := 0; s_ntp := 0; s_nonsync := false; s_size := 50 |});
     (0%nat, {| s_dts := 3600; s_ntp := 40000000; s_nonsync := true; s_size := 80 |});
     (0%nat, {| s_dts := 7200; s_ntp := 80000000; s_nonsync := true; s_size := 10 |}) ].
-Lemma example_after_error :
-  exists c evs f d, In f (files_of (x_log (run c evs))) /\ In o_err (x_outs (run c evs)) /\
+Lemma example_after_error_pinned :
+  exists c evs f d, In f (files_of (x_log (run_pinned c evs))) /\ In o_err (x_outs (run_pinned c evs)) /\
                     f_closed f = Some d /\ true_duration f < d.
 Proof.
   exists exe_cfg, exe_evs.
@@ -403,3 +343,8 @@ Proof.
   - reflexivity.
   - vm_compute. reflexivity.
 Qed.
+(* the same input on the repaired code: the same error, the file records the 40 ms it holds *)
+Lemma example_after_error_fixed :
+  In o_err (x_outs (run exe_cfg exe_evs)) /\
+  map (fun f => (f_closed f, true_duration f)) (files_of (x_log (run exe_cfg exe_evs))) = [(Some 40000000, 40000000)].
+Proof. split; [vm_compute; auto|vm_compute; reflexivity]. Qed.
